@@ -216,18 +216,29 @@ fn num_cmp_exact_float_u64() {
     check_pair(&b, &a);
 }
 
-/// the real order is a total order on triples (direct statement; long-running, thorough tier)
-#[kani::proof]
-#[kani::solver(kissat)]
-fn num_cmp_total_order() {
-    let a = any_number();
-    let b = any_number();
-    let c = any_number();
-    assert!(a.cmp(&a) == Ordering::Equal);
-    assert!(a.cmp(&b) == b.cmp(&a).reverse());
-    if a.cmp(&b) != Ordering::Greater && b.cmp(&c) != Ordering::Greater {
-        assert!(a.cmp(&c) != Ordering::Greater);
+/// the real order is a total order on triples, stated directly (independent of spec_cmp) for triples of integers of
+/// either representation and for triples of floats. Mixed integer/float triples are not run directly (the SAT query
+/// did not finish in 25 minutes): for them transitivity follows from the pairwise agreement with the exact
+/// mathematical order proved by num_cmp_exact_*.
+fn check_triple(a: &Number, b: &Number, c: &Number) {
+    assert!(a.cmp(a) == Ordering::Equal);
+    assert!(a.cmp(b) == b.cmp(a).reverse());
+    if a.cmp(b) != Ordering::Greater && b.cmp(c) != Ordering::Greater {
+        assert!(a.cmp(c) != Ordering::Greater);
+        if a.cmp(c) == Ordering::Equal {
+            assert!(a.cmp(b) == Ordering::Equal && b.cmp(c) == Ordering::Equal);
+        }
     }
+}
+
+#[kani::proof]
+fn num_cmp_total_order_ints() {
+    check_triple(&any_int_number(), &any_int_number(), &any_int_number());
+}
+
+#[kani::proof]
+fn num_cmp_total_order_floats() {
+    check_triple(&Number::Float64(kani::any()), &Number::Float64(kani::any()), &Number::Float64(kani::any()));
 }
 
 /// C18: i64/u64 views are exact or absent; the f64 view is the nearest double (ties to even)
